@@ -871,6 +871,7 @@ func genC33(g *Gen, idx int) *Plan {
 	// API calls placed at ticks +- delta
 	n := int(g.Range(1, 4))
 	used := int64(0)
+	losePing := false
 	for i := 0; i < n; i++ {
 		k := g.Range(1, 3)
 		delta := []int64{-20, -2, -1, 0, 1, 2, 20, 300}[g.Intn(8)]
@@ -882,6 +883,14 @@ func genC33(g *Gen, idx int) *Plan {
 		switch g.Intn(5) {
 		case 0:
 			d := g.Range(1, 4) * 1000
+			if g.Bool(0.5) {
+				// the keep-alive ping of this tick stays unanswered, and the client falls asleep just when
+				// the ping's retry timer comes round (one RetryDelay after the tick, less a round trip)
+				extra := cp.RetryDelayMs - []int64{40, 20, 8, 3, 1, 0}[g.Intn(6)]
+				gap += extra
+				used += extra
+				losePing = true
+			}
 			ops = append(ops, ClientOp{GapMs: gap, Op: "sleep", DurMs: d})
 			ops = append(ops, ClientOp{GapMs: 50, Op: "connect"})
 			used += d + 50
@@ -902,7 +911,7 @@ func genC33(g *Gen, idx int) *Plan {
 	ops = append(ops, ClientOp{GapMs: gap, Op: "disconnect"}, ClientOp{Op: "wait"})
 	used += gap
 	cp.Ops = ops
-	if g.Bool(0.3) {
+	if g.Bool(0.3) || losePing {
 		// lost PINGRESP: retransmissions
 		p.Cfg.SN.Rules = append(p.Cfg.SN.Rules, Rule{Dir: "g2c", Class: "PINGRESP", Skip: g.Intn(2), Count: int(g.Range(1, 2)), Act: "drop"})
 	}
